@@ -119,11 +119,12 @@ class _G:
 @st.composite
 def definitions(draw, max_events=None, loops=True, loops_required=False,
                 multi_start=None, exotic=None, kill=True, two_breaks=True,
-                empty_break=False):
+                empty_break=None):
     me = max_events or draw(st.integers(4, 16))
     ex = draw(st.integers(0, 9)) < 2 if exotic is None else exotic
     ms = (draw(st.integers(0, 9)) < 1) if multi_start is None else multi_start
-    g = _G(draw, me, ex, loops, kill, two_breaks, empty_break)
+    eb = (draw(st.integers(0, 9)) < 3) if empty_break is None else empty_break
+    g = _G(draw, me, ex, loops, kill, two_breaks, eb)
     items = g.seq(0, False, first_block=ms)
     ast = Seq(tuple(items))
     if loops_required and not any(isinstance(n, Loop) for n in ps.walk(ast)):
@@ -188,6 +189,9 @@ def features(ast) -> tuple:
                                         f.add("break_multi")
                                         if last and (is_top or not tail_of_loop):
                                             f.add("break_multi_loop_last")
+                                    if len(b.items) == 1 and last and (
+                                            is_top or not tail_of_loop):
+                                        f.add("empty_break_loop_last")
                     if in_loop:
                         f.add("break_in_nested")
                     if last and tail_of_loop:
